@@ -9,8 +9,8 @@
    recorded finding).  What is proved, for ALL histories, subscribers, start orders and schedules:
    the computation sub-protocol in its positive form (what the directory lists, the subscriber has)
    under the exact guard that the directory holds an address for the hosting agent, for every
-   history made of any operations except unregister_agent and register_computation without an
-   address; and, per handler, that a notification which changes the view fires every callback
+   history made of any operations except unregister_agent, register_computation without an
+   address and unregister_computation naming an agent; and, per handler, that a notification which changes the view fires every callback
    registered for the item.  Agents and replicas are covered by the correspondence run and the
    Python oracle only.  Statements only; each closed by a lemma of P_Discovery. *)
 From PyDcop Require Import Base Net M_Discovery P_Discovery.
@@ -89,8 +89,7 @@ Theorem removal_agreement_refuted :
     quietb cf ns = true /\
     In a (sm_get c (g_sub_comps (n_dir (w_st (nodes cf 0))))) /\
     zlookup c (g_comps (n_dir (w_st (nodes cf 0)))) = None /\
-    zlookup c (d_comps (n_disc (w_st (nodes cf a)))) = Some g /\
-    In (EvRaise a 4) (snd (exec (disc_proto h) (run_from h ns []) sched)).
+    zlookup c (d_comps (n_disc (w_st (nodes cf a)))) = Some g.
 Proof. exact removal_agreement_refuted_l. Qed.
 
 Theorem replica_agreement_refuted :
